@@ -494,19 +494,24 @@ def r7(repo, res):
             found = f"unfoldable: {e}"
     res.ob("C03.R7", ia, dc[0] if dc else ia, okd, expected="copy-number calling is on iff the database has a deletion, fusion or partial-deletion allele",
            found=found, clause="genes without structural alleles: exactly two default copies are assumed", key="structural-alleles-switch")
-    # exome route in genotype()
+    # profile aliases in genotype(), folded whole: exome-type profiles switch copy-number calling off before the structure stage
+    from checks._genotype import GenotypeModel, Scenario, events
+
     g = repo.func("genotype::genotype")
     res.analysed(g)
-    c = cfg_of(g)
-    for prof in ("exome", "wxs", "wes"):
-        removed = c.prune(decide_with({"profile_name": prof}))
-        st = [n for n in walk_local(g) if isinstance(n, ast.Assign) and ast.unparse(n.targets[0]).endswith(".do_copy_number")
-              and isinstance(n.value, ast.Constant) and n.value.value is False]
-        stage = find_calls(g, "estimate_cn")
-        ok = bool(st) and bool(stage) and c.is_reachable(c.node_of(st[0]), removed) and \
-            c.dominates(c.node_of(st[0]), c.node_of(stage[0]), removed)
-        res.ob("C03.R7", g, st[0] if st else g, ok, expected=f"profile {prof!r} disables copy-number calling before the structure stage",
-               found="ok" if ok else "not dominated", key=f"exome:{prof}")
+    gm = GenotypeModel(repo)
+    for prof, want in (("exome", False), ("wxs", False), ("wes", False), ("illumina", True), ("wgs", True), ("pgrnseq-v2", True)):
+        for kind in ("sam", "dump"):
+            try:
+                k, v, trace, _ = gm.run(Scenario(kind=kind, args=dict(output_file=None, profile_name=prof)))
+            except Unfoldable as e:
+                res.err("C03.R7", f"genotype() outside the folding language: {e}")
+                return
+            ev_ = events(trace, "estimate_cn")
+            got = ev_[0][5]["do_copy_number"] if ev_ else None
+            res.ob("C03.R7", g, g, k == "return" and got is want,
+                   expected=f"profile {prof!r} ({kind} input): the structure stage runs with copy-number calling {'on' if want else 'off'}",
+                   found=f"{k}; do_copy_number={got}", clause="where copy-number calling is unavailable exactly two default copies", key=f"exome:{prof}:{kind}")
 
 
 VAL_SEED = 0
